@@ -1,6 +1,9 @@
 import LekkerVerif.Model.Modes
 import LekkerVerif.Core.ModesNet
 import LekkerVerif.Core.ModesNetN
+import LekkerVerif.Generated.Modes
+import Mathlib.Tactic.FinCases
+import Mathlib.Data.Fintype.Basic
 
 /-! # C13 — modes are independent: expand_mode replicates, connect_all pairs like modes -/
 
@@ -62,6 +65,28 @@ theorem C13_connect_all_nodup (modes1 modes2 : List String) (h : modes1.Nodup) :
     (connectAllModes modes1 modes2).Nodup := by
   unfold connectAllModes
   exact h.sublist List.filter_sublist
+
+/-! ### the current source, traced: `expand_mode` + `_expand_S` + `diag_blocks` executed on a symbolic two-pin model and three
+modes (`Generated/Modes.lean`) are the model at that instance -/
+
+/-- the single-mode matrix as an index function on naturals (zero outside the 2 × 2 range) -/
+def ofFin2 {F : Type} [Zero F] (S : Fin 2 → Fin 2 → F) (i j : Nat) : F :=
+  if h : i < 2 ∧ j < 2 then S ⟨i, h.1⟩ ⟨j, h.2⟩ else 0
+
+/-- the matrix the expanded model of the current source returns is `diagBlocks` of the single-mode matrix, entry by entry -/
+theorem C13_src_expand {F : Type} [Zero F] (S : Fin 2 → Fin 2 → F) (a b : Fin 6) :
+    Generated.Modes.expandedS S a b = diagBlocks (F := F) 2 3 (ofFin2 S) a.1 b.1 := by
+  fin_cases a <;> fin_cases b <;> rfl
+
+/-- the index the model predicts for (basename, mode) -/
+def predictedIdx (e : (String × String) × Nat) : Option Nat :=
+  (Generated.Modes.singleIdx.lookup e.1.1).bind fun n =>
+    (Generated.Modes.modeNumber.lookup e.1.2).map fun i => expandIndex 2 i n
+
+/-- every pin of the expanded model of the current source sits at `expandIndex` (mode position, single-mode index) -/
+theorem C13_src_index :
+    Generated.Modes.expandedIdx.length = 6 ∧ ∀ e ∈ Generated.Modes.expandedIdx, predictedIdx e = some e.2 := by
+  decide
 
 /-! non-vacuity -/
 example : diagBlocks 2 3 (fun a b => a + 10 * b + 1) (expandIndex 2 1 1) (expandIndex 2 1 0) = 2 ∧
